@@ -3,8 +3,33 @@ import json, os, socket
 import vlib
 from vlib import hexs
 
-REQUIRED = ['spf_terminates_bounded', 'spf_result_in_range', 'spf_no_injection_bad_token', 'spf_no_injection_exp',
-            'spf_no_injection_received', 'spf_gen_constants']
+REQUIRED = ['spf_terminates_bounded', 'spf_at_most_ten_dns_terms', 'spflookup_fuel_enough', 'spf_result_in_range',
+            'spf_no_injection_bad_token', 'spf_no_injection_exp', 'spf_no_injection_received', 'breaksOk_spec', 'spf_makro_total',
+            'spf_gen_constants', 'spf_refines_rfc_counterexample', 'spf_refines_rfc_partial_none',
+            'spf_refines_rfc_partial_dns_failure', 'spf_refines_rfc_partial_duplicate', 'spf_refines_rfc_partial_all']
+
+# Documented deviations of qsmtpd/spf.c from RFC 7208, grouped into known findings.  The Lean predicate
+# (Spec.Spf.compareRfc) names the deviation that explains a difference ("fails rfc-result deviation=<name>");
+# a difference no deviation explains is "fails rfc-result rfc=..." and is never absorbed.
+KNOWN_GROUPS = {
+    'c11-rfc-lazy-syntax': ['lazy-syntax', 'empty-exp-ignored', 'colon-before-cidr', 'modifier-expanded-in-loop'],
+    'c11-rfc-stricter-syntax': ['ip-cidr-min-8', 'toplabel-single-char', 'slash-delimiter-position', 'escape-as-domain-end',
+                                'upper-case-r-transformer', 'malformed-domain-permerror', 'record-selection-prefix'],
+    'c11-rfc-dns-errors': ['ptr-dns-error', 'mx-without-address', 'dns-hard-error-in-include', 'ptr-needs-reverse-name',
+                           'ptr-case-sensitive', 'mx-limit-is-fail', 'redirect-to-nothing-is-fail'],
+    'c11-rfc-combined': ['combined'],
+}
+
+
+def known_class(f, case, impl, clause):
+    """class predicate of the known findings c11-rfc-*: the failing clause names a documented deviation
+    that belongs to the finding (f['class'] = comma separated deviation names)"""
+    if not clause.startswith('fails rfc-result deviation='):
+        return False
+    dev = clause.split('deviation=', 1)[1].strip()
+    names = [x.strip() for x in f.get('class', '').split(',')] or KNOWN_GROUPS.get(f.get('id'), [])
+    return dev in names
+
 
 # ---------------------------------------------------------------------------------------------
 # protocol helpers
@@ -755,7 +780,7 @@ def run(ctx):
         cases += [gen_rfc_case(rng, ctx) for _ in range(nz)]
         cases += [gen_rfc_chain_case(rng, ctx) for _ in range(nz // 2)]
         cases += [gen_rfc_single_case(rng, ctx) for _ in range(nz)]
-        res = vlib.differential(ctx, 'check_host', h, cases, pred=pred,
+        res = vlib.differential(ctx, 'check_host', h, cases, pred=pred, known_class=known_class,
                                 nontrivial=lambda c, o: o.count(',') >= 1,
                                 corr_name='model QsmtpModel.Spf.checkHost vs qsmtpd/spf.c:check_host (+ lib/qdns.c) incl. the DNS query trace')
         for (c, ho, mo) in res:
